@@ -271,6 +271,29 @@ type caseRec struct {
 	Obs []string
 }
 
+// exhaustedWindowScenarios: an instance that has used up its window and whose next reservation FAILS must not hand out
+// anything from memory afterwards (every later Alloc has to reserve again).
+func exhaustedWindowScenarios() [][]op {
+	use := func() []op {
+		l := []op{{K: oNew, M: 1}, {K: oSetLeader, M: 1}}
+		for k := 0; k < 1000; k++ {
+			l = append(l, op{K: oAlloc, I: 0})
+		}
+		return append(l, op{K: oRead})
+	}
+	// (1) the reservation fails in storage (not applied), the caller tries again
+	a := append(use(), op{K: oBegin, I: 0, Alc: true}, op{K: oFinish, I: 0, Out: 1}, op{K: oRead},
+		op{K: oAlloc, I: 0}, op{K: oRead}, op{K: oAlloc, I: 0}, op{K: oRead})
+	// (2) the leadership moved: the old instance's reservation is refused, a new instance of the new leader allocates,
+	// the old instance is asked again
+	b := append(use(), op{K: oSetLeader, M: 2}, op{K: oAlloc, I: 0}, op{K: oRead}, op{K: oNew, M: 2}, op{K: oAlloc, I: 1},
+		op{K: oAlloc, I: 0}, op{K: oRead}, op{K: oAlloc, I: 1}, op{K: oAlloc, I: 0}, op{K: oRead})
+	// (3) an explicit Rebase fails after a few ids were handed out; allocation goes on
+	c := []op{{K: oNew, M: 1}, {K: oSetLeader, M: 1}, {K: oAlloc, I: 0}, {K: oAlloc, I: 0}, {K: oBegin, I: 0}, {K: oFinish, I: 0, Out: 1},
+		{K: oAlloc, I: 0}, {K: oRead}, {K: oSetLeader, M: 2}, {K: oNew, M: 2}, {K: oAlloc, I: 1}, {K: oAlloc, I: 0}, {K: oRead}}
+	return [][]op{a, b, c}
+}
+
 func runCase(e *etcdx.Etcd, pool *clientPool, admin *clientv3.Client, root string, r *rng.R, fixed []op, maxOps int) caseRec {
 	w := &world{e: e, root: root, admin: admin, pool: pool}
 	var c caseRec
@@ -470,6 +493,9 @@ func main() {
 			panic(err)
 		}
 		fixed = append(fixed, l...)
+	}
+	if *replay == "" {
+		fixed = append(fixed, exhaustedWindowScenarios()...)
 	}
 	caseNo := 0
 	var all []caseRec
